@@ -138,7 +138,7 @@ def _run_chunk(args):
         try:
             from ..impl import Diverged, guarded
 
-            r = guarded(lambda: fn(rng, i, params), seconds=params.get("case_timeout", 90.0))
+            r = guarded(lambda: fn(rng, i, params), seconds=params.get("case_timeout", 90.0 if os.environ.get("HX_TIER") == "thorough" else 30.0))
         except Diverged:
             r = {"nontrivial": True, "key": ("hang", i), "meta": {"hang": True},
                  "violation": {"scenario": {"regenerate": {"oracle": name, "seed": seed, "case": i, "params": {k: v for k, v in params.items() if isinstance(v, (int, str, float, bool))}}},
@@ -197,21 +197,37 @@ def merge_results(*rs):
     return out
 
 
-def shrink_stream(scn, fails, key="stream", max_tries=200):
-    """greedy removal of candles from scn[key] (schedule collapses to batch+singles as needed)"""
+SHRUNK = 0  # shrinks done by this (worker) process
+
+
+def shrink_stream(scn, fails, key="stream", max_tries=200, budget_s=10.0, per_process=3):
+    """greedy removal of candles from scn[key] (schedule collapses to batch+singles as needed).  Bounded: at most
+    `budget_s` seconds, every probe under a 2 s watchdog (a probe that does not return is a rejected candidate), and
+    only the first `per_process` violations of a worker process are shrunk at all – the rest are reported as found."""
+    global SHRUNK
+    import time
+
+    from ..impl import Diverged, guarded
+
     best = dict(scn)
+    if SHRUNK >= per_process:
+        return best
+    SHRUNK += 1
+    t_end = time.monotonic() + budget_s
     tries = 0
     n = len(best[key])
     chunk = max(1, n // 2)
-    while chunk >= 1 and tries < max_tries:
+    while chunk >= 1 and tries < max_tries and time.monotonic() < t_end:
         i = 0
         progressed = False
-        while i < len(best[key]) and tries < max_tries:
+        while i < len(best[key]) and tries < max_tries and time.monotonic() < t_end:
             cand = dict(best)
             cand[key] = best[key][:i] + best[key][i + chunk :]
             tries += 1
             try:
-                bad = fails(cand)
+                bad = guarded(lambda: fails(cand), seconds=2.0)
+            except Diverged:
+                bad = False
             except Exception:
                 bad = False
             if bad:
